@@ -1509,11 +1509,23 @@ class Interp:
             if t[0] == 'ref':
                 t = t[2]
             gens = set(generic_names(a0[0][1])) | set(info.gens)
-            if any(unify(self.canon_ty(self.p.fns[n].crate, t), cand_ty, gens, {}) for cand_ty in ([full_self] if full_self is not None else []) + [self_ty]):
+            same_mut = lambda a_, b_: not (a_[0] == 'ref' and b_[0] == 'ref') or a_[1] == b_[1]
+            if any(same_mut(t, cand_ty) and unify(self.canon_ty(self.p.fns[n].crate, t), cand_ty, gens, {}) for cand_ty in ([full_self] if full_self is not None else []) + [self_ty]):
                 fits.append(n)
         if len(fits) == 1:
+            # bind the impl's generics from the stamped receiver (T in `&T`)
+            a0 = self.p.fns[fits[0]].args[0][1]
+            t = ty_parse(a0)
+            if t[0] == 'ref':
+                t = t[2]
+            for cand_ty in ([full_self] if full_self is not None else []) + [self_ty]:
+                b2 = {}
+                if unify(self.canon_ty(self.p.fns[fits[0]].crate, t), cand_ty, set(generic_names(a0)) | set(info.gens), b2):
+                    for k_, v_ in b2.items():
+                        b.setdefault(k_, v_)
+                    break
             return fits[0]
-        raise Unsupported(f'ambiguous duplicate {method} in {info}: {names} want={want}')
+        raise Unsupported(f'ambiguous duplicate {method} in {info}: {names} want={want} self={ty_str(full_self) if full_self is not None else None} fits={fits}')
 
     def dispatch_target(self, self_ty, trait, method, gargs, args, st, ctx):
         """-> (fn name, tenv) | model callable | None"""
@@ -1608,6 +1620,26 @@ class Interp:
                 ex = [(i, b) for i, b in matches if strip_refs(i.self_ty)[1] == head[1]]
                 if ex:
                     matches = ex
+        # impls stamped out by a macro over a metavariable self type (`impl<T> Tr for $ptr`): they only apply when one of the stamped
+        # receivers (&T, &mut T, Box<T>, ..) unifies with the actual self type
+        def stamped_applies(i):
+            if not (i.self_ty[0] == 'path' and i.self_ty[1].startswith('$')):
+                return True
+            for ns in i.methods.values():
+                for n in ns:
+                    a0 = self.p.fns[n].args[:1]
+                    if not a0:
+                        continue
+                    try:
+                        t = ty_parse(a0[0][1])
+                    except Exception:
+                        continue
+                    if t[0] == 'ref':
+                        t = t[2]
+                    if unify(self.canon_ty(self.p.fns[n].crate, t), self_ty, set(generic_names(a0[0][1])) | set(i.gens), {}):
+                        return True
+            return False
+        matches = [(i, b) for i, b in matches if stamped_applies(i)]
         if len(matches) > 1:
             raise Unsupported(f'ambiguous impls for <{ty_str(self_ty)} as {ty_str(trait)}>::{method}: {[m[0] for m in matches][:4]}')
         if matches:
